@@ -269,8 +269,20 @@ def gen_degenerate_scene(rng, R=24, use_bbox=False):
 
 
 # ------------------------------------------------------------------------------------------ harness protocol
+def build_harness_retry(name, libs, flavor):
+    """build_lib deletes object directories of other source hashes, so a concurrently running check on a different tree
+    (VERIF_REPO scratch copy) can remove the archive between our build and our link: retry"""
+    last = None
+    for _ in range(4):
+        try:
+            return C.build_harness(name, libs, flavor)
+        except RuntimeError as e:
+            last = e
+    raise last
+
+
 def harness():
-    return C.build_harness('c03_route', ['libavoid'], 'exc')
+    return build_harness_retry('c03_route', ['libavoid'], 'exc')
 
 
 def fmt_poly(P):
